@@ -188,6 +188,11 @@ func lifeRun(e *Env) {
 		// would legitimately be refused as "not connected", so only the causes
 		// that do not go through the client's API start early)
 		cy.early = g.Pct(12) && (cy.cause == causeCancel || cy.cause == causeEOF || cy.cause == causeReset)
+		if e.Prop == "C07" {
+			// a redundant Connect on the live connection (refused) must not
+			// change how the connection ends later
+			cy.dupConnect = g.Pct(20)
+		}
 		if e.Prop == "C06" {
 			cy.dupConnect = g.Pct(35)
 			for k := g.W(5, 3, 1); k > 0 && w.reconn != 3; k-- {
